@@ -330,6 +330,35 @@ integer_div("_cohdl_truncdiv_", "truncdiv")
 integer_div("__mod__", "mod")
 integer_div("_cohdl_rem_", "rem")
 
+
+# the reflected forms (`7 * i`, `7 % i`, op.truncdiv(7, i), op.rem(7, i) with a Python int on the LEFT): "mixes with Python ints
+# in either operand order".  The methods exist since the repair of session 6; that they EXIST is decided natively
+# (contracts.c09_bitops.integer_operand_order_sweep), their value here.
+def integer_rdiv(name, op):
+    def spec(sx, a, b):
+        k = sem.literal(b)
+        if k is None:
+            return NotImplemented
+        v = a.fields["_val"]
+        sx.domain(sym.Not(sym.eq(v, 0)))
+        return INT({"truncdiv": sym.truncdiv, "mod": sym.pymod, "rem": sym.truncrem}[op](k, v))
+
+    con = contract(IMOD + name, PROPS)
+    con.summary = spec
+    con.cases.append(Case("int", [IntegerShape("a", None, None, -(2**60), 2**60), PyInt("k", None, None, -(2**70), 2**70)], spec))
+    con.cases.append(Case("Integer", [IntegerShape("a"), IntegerShape("k")], spec))
+    con.cases.append(Case("none", [IntegerShape("a"), NONE], spec))
+
+
+if hasattr(Integer, "__rmul__"):
+    integer_binop("__rmul__", lambda a, k: k * a)
+if hasattr(Integer, "_cohdl_rtruncdiv_"):
+    integer_rdiv("_cohdl_rtruncdiv_", "truncdiv")
+if hasattr(Integer, "__rmod__"):
+    integer_rdiv("__rmod__", "mod")
+if hasattr(Integer, "_cohdl_rrem_"):
+    integer_rdiv("_cohdl_rrem_", "rem")
+
 for nm, f in (
     ("__eq__", lambda a, k: sym.eq(a, k)),
     ("__ne__", lambda a, k: sym.Not(sym.eq(a, k))),
